@@ -46,7 +46,7 @@ func (r *Source) Int63() int64 {
 }
 
 // FloatDraw returns the Int63 value that makes (*rand.Rand).Float64 return f.
-func FloatDraw(f float64) int64 { return int64(f * (1 << 53)) }
+func FloatDraw(f float64) int64 { return int64(f * (1 << 63)) } // Float64 = Int63/2^63
 
 // IntnDraw returns the Int63 value that makes (*rand.Rand).Intn(n) return k (k<n).
 func IntnDraw(k int) int64 { return int64(k) << 32 }
